@@ -8,6 +8,7 @@ The Go side records the dynamic kind and payload of what it received; the Coq mo
 Coq spec (oracle) are evaluated on the observations."""
 import itertools
 import json
+import re
 import struct
 import subprocess
 import vcheck
@@ -347,11 +348,29 @@ def gen_cases(ck):
     return cases
 
 
+def check_conc(ck, conc, couts, cerr, suffix, stats):
+    if len(couts) != len(conc):
+        ck.log("concurrent section%s: %d results for %d cases\n%s" % (suffix, len(couts), len(conc), cerr[-2000:]))
+        ck.broken.append("harness-run-concurrent" + suffix)
+        return
+    for c, o in zip(conc, couts):
+        stats[c["mode"] + suffix] = {k: o.get(k, 0) for k in ("calls", "want", "bad", "failed")}
+        replay = {"case": c, "impl": o}
+        if o.get("out") != "conc":
+            ck.violation("conc:%s%s:did-not-complete" % (c["mode"], suffix), replay)
+        elif o.get("bad", 0) or o.get("failed", 0):
+            # the Go function received a tuple no caller passed
+            ck.violation("conc:%s%s:arguments-mixed" % (c["mode"], suffix), replay)
+        elif o.get("calls") != o.get("want"):
+            ck.violation("conc:%s%s:call-count" % (c["mode"], suffix), replay)
+
+
 def main(ck):
     ck.trusted += [
         "reflect.Call requires each argument's dynamic type to be the parameter type (modelled: Crash otherwise); reflect.Value.Convert / OverflowInt / OverflowUint as documented",
         "Go library functions taken as parameters of the model (theorems quantify over them): strconv.ParseFloat, strconv.FormatFloat 'g' 14, fmt %g, float64->float32 conversion; measured per case by calling the library directly",
         "amd64 float64->int64 conversion rule (V.C03.Model.f2i)",
+        "concurrent section: 8 goroutines / 8 spawned coroutines calling ONE registered function and ONE method of a registered struct with caller-tagged arguments, checked on the Go side, and the same under the race detector; a test, not a proof — it sees an interleaving defect only when the scheduler produces the interleaving (the seeded shared-buffer change mixes thousands of calls per run)",
         "harness/cmd/c17 (reflect.MakeFunc-built functions of every signature, struct T, ConvertFromIndex instantiations) and checks/C17.py",
         "struct/slice/map/pointer/interface parameters are one kind KOther (reported as unsupported); of several results only the first is converted (a second `error` result is dropped — docs/go-integration.md does not describe the reflective registration at all, so this is recorded as behaviour, not judged); not modelled: ConvertFromIndex for arrays, class instances and string->bool, constructors/properties of reflected classes",
     ]
@@ -370,8 +389,35 @@ def main(ck):
         ck.log("harness returned %d results for %d cases rc=%d\n%s" % (len(outs), len(cases), rc, err[-2000:]))
         ck.broken.append("harness-run")
         ck.finish(evaluations=len(outs), distinct_nontrivial=0, rule="harness crashed")
+    # ---- concurrent callers of one registered function / method (no Coq term: the Go side checks that
+    # the arguments of every call come from one caller; the model's `call` is a function of its own
+    # arguments only, so any mixture is a departure from it)
+    conc_stats = {}
+    if not ck.replay or (cases and cases[0].get("k") == "conc"):
+        quick = ck.tier == "quick"
+        conc = [{"k": "conc", "mode": m, "workers": 8, "iters": 4000 if quick else 40000} for m in ("go", "gomethod", "spawn", "spawnmethod")]
+        if ck.replay:
+            conc, cases, outs = cases, [], []
+        couts, crc, cerr = run_impl(binary, conc)
+        check_conc(ck, conc, couts, cerr, "", conc_stats)
+        rbin, rout = ck.go_build("c17", race=True)
+        if rbin is None:
+            ck.broken.append("harness-build-race")
+        else:
+            rconc = [dict(c, iters=300 if quick else 3000, workers=4) for c in conc]
+            routs, rrc, rerr = run_impl(rbin, rconc)
+            check_conc(ck, rconc, routs, rerr, ":race", conc_stats)
+            if "WARNING: DATA RACE" in rerr:
+                mine = [b for b in rerr.split("==================") if "DATA RACE" in b and re.search(r"runtime/reflect_\w+\.go|utils/", b)]
+                conc_stats["race_reports"] = rerr.count("WARNING: DATA RACE")
+                conc_stats["race_reports_in_reflect_code"] = len(mine)
+                if mine:
+                    ck.violation("conc:data-race:reflect", {"case": rconc[0], "report": mine[0][:3000], "kind": "race detector"})
+                else:
+                    ck.notes.append("race detector reported %d race(s) outside the reflect/convert code during the concurrent section (not C17's subject)" % rerr.count("WARNING: DATA RACE"))
+    ck.cov["concurrent"] = conc_stats
     terms = [coq_case(c, o) for c, o in zip(cases, outs)]
-    bad = ck.eval_cases("cases", HEADER, terms, "check_case", shard=max(300, len(terms) // 15 + 1))
+    bad = ck.eval_cases("cases", HEADER, terms, "check_case", shard=max(300, len(terms) // 15 + 1)) if terms else {}
     names = {1: "tie", 2: "value-changed", 3: "unrepresentable-not-reported", 4: "panic"}
     order = sorted(bad.items(), key=lambda kv: len(json.dumps(cases[kv[0]])))
     for j, cls in order:
@@ -410,5 +456,5 @@ def main(ck):
     ck.cov["outcomes"] = {k: sum(1 for o in outs if o["out"] == k) for k in ("val", "nil", "throw", "panic", "go")}
     ck.samples = [cases[40], cases[len(cases) // 2], cases[-1]]
     ck.finish(level="proof", evaluations=len(cases), distinct_nontrivial=len(nontriv),
-              rule="reflective path: every parameter kind (14 supported + an unsupported slice) x a per-kind pool (min, max, min-1, max+1 of the kind, 0, +-1, int64 limits, +-0.0, subnormal, float32 max / just above / 1e308, inf, NaN, empty, multi-byte, invalid UTF-8 and 64 KiB strings, values of every other script kind, null, array) x 5 result kinds at arity 1; every signature of arity 2 and 3 over the 14 kinds (196 + 2744) with pool-sampled arguments and a random result kind; every result kind x boundary results at arity 0; 12 methods of a registered struct; generic path: ConvertFromIndex[T] for all 14 T x 41 scalar/boundary values (thorough: + 20 000 random ints/floats); non-trivial = distinct call with at least one parameter, or distinct generic conversion",
+              rule="reflective path: every parameter kind (14 supported + an unsupported slice) x a per-kind pool (min, max, min-1, max+1 of the kind, 0, +-1, int64 limits, +-0.0, subnormal, float32 max / just above / 1e308, inf, NaN, empty, multi-byte, invalid UTF-8 and 64 KiB strings, values of every other script kind, null, array) x 5 result kinds at arity 1; every signature of arity 2 and 3 over the 14 kinds (196 + 2744) with pool-sampled arguments and a random result kind; every result kind x boundary results at arity 0; 12 methods of a registered struct; CONCURRENT: 8 workers x 4 000 calls each of one registered function and of one struct method, from goroutines and from spawned script coroutines, arguments tagged per caller and checked in Go, repeated under -race (4 x 300); generic path: ConvertFromIndex[T] for all 14 T x 41 scalar/boundary values (thorough: + 20 000 random ints/floats); non-trivial = distinct call with at least one parameter, or distinct generic conversion",
               traces=len(terms))
